@@ -142,6 +142,9 @@ class Ctx(object):
         if fraction >= 1:
             return items
         step = max(1, int(round(1 / fraction)))
+        # a prime step: flattened product spaces (index = i * n + j) are then sampled evenly in both coordinates
+        while step > 3 and any(step % d == 0 for d in range(2, int(step ** 0.5) + 1)):
+            step += 1
         off = self.seed % step
         return items[off::step]
 
